@@ -6,6 +6,7 @@
 package internal
 
 import (
+	"encoding/json"
 	"errors"
 	"fmt"
 	"sort"
@@ -305,4 +306,53 @@ func HarnessSelfChannels() {
 		close(nilch)
 	}()
 	vrt.Observe("close.nil", recovered)
+}
+
+type wire struct {
+	S string
+	B []byte
+}
+
+// jsonProbe: a string field survives encoding/json only when it is valid UTF-8; a []byte field always does.
+func jsonProbe(label string, want []byte) int {
+	b := vrt.Bytes(label, len(want))
+	vrt.Assume(len(b) == len(want))
+	for i := range want {
+		vrt.Assume(b[i] == want[i])
+	}
+	in := wire{S: string(b), B: b}
+	enc, err := json.Marshal(in)
+	if err != nil {
+		return -1
+	}
+	var out wire
+	if json.Unmarshal(enc, &out) != nil {
+		return -2
+	}
+	r := 0
+	if out.S == in.S {
+		r += 1
+	}
+	if string(out.B) == string(in.B) {
+		r += 2
+	}
+	return r
+}
+
+func HarnessSelfJSON() {
+	vrt.Observe("ascii", jsonProbe("p0", []byte{0x41, 0x42}))
+	vrt.Observe("two-byte", jsonProbe("p1", []byte{0xC3, 0xA9}))
+	vrt.Observe("c1fe", jsonProbe("p2", []byte{0xC1, 0xFE}))
+	vrt.Observe("overlong3", jsonProbe("p3", []byte{0xE0, 0x80, 0x80}))
+	vrt.Observe("e0a080", jsonProbe("p4", []byte{0xE0, 0xA0, 0x80}))
+	vrt.Observe("surrogate", jsonProbe("p5", []byte{0xED, 0xA0, 0x80}))
+	vrt.Observe("ed9fbf", jsonProbe("p6", []byte{0xED, 0x9F, 0xBF}))
+	vrt.Observe("f0908080", jsonProbe("p7", []byte{0xF0, 0x90, 0x80, 0x80}))
+	vrt.Observe("overlong4", jsonProbe("p8", []byte{0xF0, 0x8F, 0x80, 0x80}))
+	vrt.Observe("beyond", jsonProbe("p9", []byte{0xF4, 0x90, 0x80, 0x80}))
+	vrt.Observe("max", jsonProbe("p10", []byte{0xF4, 0x8F, 0xBF, 0xBF}))
+	vrt.Observe("lone-cont", jsonProbe("p11", []byte{0x80}))
+	vrt.Observe("truncated2", jsonProbe("p12", []byte{0xC3}))
+	vrt.Observe("truncated3", jsonProbe("p13", []byte{0xE1, 0x80}))
+	vrt.Observe("mixed", jsonProbe("p14", []byte{0x41, 0xC3, 0xA9, 0x42, 0xFF}))
 }
